@@ -7,6 +7,9 @@ import pluginstream as PS
 from octoprint.util.comm import gcode_and_subcode_for_cmd
 
 
+COUNTS = {}        # how often each designed check was actually reached (reported in the evidence)
+
+
 def exact_in(d, x, y):
     if d['type'] == 'RectangularRegion':
         return F(repr(d['x1'])) <= x <= F(repr(d['x2'])) and F(repr(d['y1'])) <= y <= F(repr(d['y2']))
@@ -81,6 +84,12 @@ def run_history(hist, checks):
     p._plugin_manager.messages = []
     active = False                 # reference lifecycle
     regs = []                      # reference registry: list of dicts as the API would report them
+    refpos = bool(hist.get('refpos')) and 'C15' in checks
+    if refpos:
+        # reference printers: U is fed the file's own commands, P what the plugin lets through (and what the hooks contribute)
+        import refprinter, reader, oracles as O
+        U, P = refprinter.Printer(bool(st['g90e'])), refprinter.Printer(bool(st['g90e']))
+        ref_enabled, ref_excluding = True, False      # reference reading of "an episode is open", from the file's own positions
     for k, ev in enumerate(hist['events']):
         before_regs = IP.api_get(p)['excluded_regions']
         before_fp = state_fingerprint(p)
@@ -94,6 +103,27 @@ def run_history(hist, checks):
         kind = ev[0]
         if kind == 'settings':
             st = dict(ev[1])
+        if refpos and kind == 'event' and ev[1] == 'PRINT_STARTED':
+            ref_enabled, ref_excluding = True, False
+        if refpos and kind == 'at' and active and not (ev[2] if len(ev) > 2 else False):
+            parts_ = ev[1].split(None, 1)
+            for a_ in PS.matched_actions(st, parts_[0][1:], parts_[1] if len(parts_) > 1 else ''):
+                if a_ == 'AtEnable':
+                    ref_enabled = True
+                else:
+                    ref_enabled, ref_excluding = False, False
+        if refpos and kind in ('cmd', 'at'):
+            if kind == 'cmd':
+                U.execute(ev[1])
+                c_ = reader.read(ev[1])
+                if active and c_ is not None and c_.code in ('G0', 'G1') and any(c_.get(l) is not None for l in 'XYZ'):
+                    # a move ends inside a region of the list in force: an episode is (or stays) open; outside every region: closed
+                    ref_excluding = ref_enabled and any(exact_in(d, U.x, U.y) for d in before_regs)
+                outs_ = [ev[1]] if r is None else [c for c in (r if isinstance(r, (list, tuple)) else [r]) if isinstance(c, str)]
+            else:
+                outs_ = [c for c in r if isinstance(c, str)]
+            for c in outs_:
+                P.execute(c)
         # ---------------- reference lifecycle (C11)
         was_active = active
         if kind == 'event':
@@ -211,11 +241,34 @@ def run_history(hist, checks):
         # ---------------- C15: the script hook
         if 'C15' in checks and kind == 'script':
             fire = ev[1] == 'gcode' and ev[2] == 'afterPrintDone' and was_active and excl_before
+            if refpos and ev[1] == 'gcode' and ev[2] == 'afterPrintDone' and was_active:
+                COUNTS['C15:episode'] = COUNTS.get('C15:episode', 0) + 1
+                if ref_excluding != bool(excl_before):
+                    fails.append(fail('the job ends with the file at (%s, %s), %s a region, exclusion %s: an episode should be %s, the plugin says %s'
+                                      % (float(U.x), float(U.y), 'inside' if any(exact_in(d, U.x, U.y) for d in before_regs) else 'outside',
+                                         'on' if ref_enabled else 'off', 'open' if ref_excluding else 'closed', 'open' if excl_before else 'closed'),
+                                      k, hist, 'C15:episode'))
+                ref_excluding = False
             if fire:
                 ok = isinstance(r, tuple) and len(r) == 2 and r[1] is None and isinstance(r[0], list) and any(c.startswith('G92 E') for c in r[0]) \
                     and any(c.startswith('G0 ') and ' X' in c for c in r[0])
                 if not ok or p.state.excluding or p.state.pendingCommands:
                     fails.append(fail('afterPrintDone with an open episode returned %r (excluding afterwards: %s)' % (r, p.state.excluding), k, hist, 'C15:fire'))
+                if ok and refpos:
+                    COUNTS['C15:position'] = COUNTS.get('C15:position', 0) + 1
+                    # the contribution leads the printer to the position the file assumes, in plain-decimal commands a firmware reads the same way
+                    for c in r[0]:
+                        cc_ = reader.read(c) if isinstance(c, str) else None
+                        merged_ = cc_ is not None and st['ext'].get(cc_.code) == 'merge' and c not in (st['exit'] or []) and cc_.code != 'M117'      # (these histories give every deferred word a value)
+                        if isinstance(c, str) and (c.startswith(('G0 ', 'G1 ', 'G92 ')) or merged_):
+                            wf, why = reader.well_formed(c)
+                            if not wf:
+                                fails.append(fail('clean-up command %r is not well-formed plain-decimal G-code: %s' % (c, why), k, hist, 'C15:shape'))
+                        if isinstance(c, str):
+                            P.execute(c)
+                    if not (O.close(P.x, U.x) and O.close(P.y, U.y) and O.close(P.z, U.z) and O.close(P.e, U.e)):
+                        fails.append(fail('after the clean-up the printer stands at (%s, %s, %s, E%s) but the file assumes (%s, %s, %s, E%s)'
+                                          % (float(P.x), float(P.y), float(P.z), float(P.e), float(U.x), float(U.y), float(U.z), float(U.e)), k, hist, 'C15:position'))
                 scr = st['exit'] or []
                 if ok and scr and not all(c in r[0] for c in scr):
                     fails.append(fail('exit script missing from the hook contribution', k, hist, 'C15:fire'))
